@@ -136,6 +136,16 @@ CLAIMS["C02"]["text"] += (" Compiler front end (L1): the optimised wazevo SSA of
     "extended index registers included) an obligation and compares with the interpreter. The byte encoder, arm64, SIMD and atomic accesses are outside the claim.")
 CLAIMS["C14"]["text"] += " Compiler front end: memory.size / memory.grow / memory.size compiled to SSA agrees with the interpreter for every size and delta (known finding at 65536 pages)."
 
+CLAIMS["C01"]["text"] += (" Imported globals across calls: the same programs with a call to a function of the exporting instance that changes its global in between (nothing read before a call is reused after it). "
+    "History independence: for every ordered pair of a six-member control-flow + memory family, the second function compiled AFTER the first by one shared front-end compiler and SSA builder (as the engine compiles the functions of a module) agrees with the interpreter.")
+CLAIMS["C02"]["text"] += " Machine level also: v128 lane loads/stores (8/16/32/64-bit lanes) and scalars fused from loads into lane inserts, for every memory size below 4 GiB."
+CLAIMS["C03"]["text"] += (" Reserved-index encodings: memory.size / memory.grow / memory.fill / memory.copy / memory.init with each reserved byte written canonically or as an over-long LEB128 zero: "
+    "whatever the validator decides, an accepted module runs on the interpreter and through the compiler front end exactly as validated.")
+CLAIMS["C06"]["text"] += (" Start functions: Runtime.InstantiateModule of a module whose _start ends in an exit raised by a host function (panic only, or closing the caller first), for every exit code: "
+    "the caller gets the exit error (none for code 0), a returned instance is closed, its name is free again, a bystander instance keeps working and the same instantiation can be repeated with the same outcome.")
+CLAIMS["C07"]["text"] += (" Watcher: closeModuleOnCanceledOrTimeout run synchronously on five kinds of done context (cancelled, cancelled with a custom cause, derived from one, past a deadline with a custom cause, hand-written) "
+    "with the stop channel open sets the closed word with the exit code of the context's error.")
+
 NOT_APPLICABLE = {
     "C09": "Object lifetime under the Go collector, finalizers and munmap of code segments is a property of the Go run-time system, not of a function's "
            "input/output relation; gosym's heap has no collector and the emitted code has no notion of reclamation, so no solver query expresses it (DESIGN.md §6).",
